@@ -55,7 +55,11 @@ macro_rules! dim_ops {
 dim_ops!(o3, p3, d3, ffeat3);
 dim_ops!(o2, p2, d2, ffeat2);
 
+#[path = "c05m.rs"]
+pub mod c05m;
+
 pub fn exec(func: &str, a: &mut Args) -> String {
+    if func.starts_with("tm_") || func.starts_with("hf_") { if let Some(r) = c05m::exec(func, a) { return r; } }
     let mut it = func.splitn(2, '_');
     let shape = it.next().unwrap_or("");
     let op = it.next().unwrap_or("");
@@ -472,5 +476,6 @@ pub fn gen(r: &mut Rng, thorough: bool) -> Vec<(String, String)> {
         tri_sweep(&mut o, r, true);
         tri_sweep(&mut o, r, false);
     }
+    c05m::gen(r, thorough, &mut o.v);
     o.v
 }
